@@ -233,6 +233,12 @@ def sut_import():
 
     import dask_array  # noqa: F401
 
+    # Determinism: dask.layers imports legacy dask.array lazily (first overlap graph), and that
+    # import re-registers process-global dispatch handlers (tokenizers, sizeof, ...).  A run's
+    # behaviour must not depend on whether an earlier run in this worker computed an overlap,
+    # so every worker starts in the post-import state (also a state real users reach).
+    import dask.array  # noqa: F401
+
     src = os.path.realpath(os.path.dirname(dask_array.__file__))
     want = os.path.realpath(os.path.join(REPO, "dask_array"))
     if src != want:
